@@ -1,6 +1,6 @@
 (** C04 — non-vacuity examples and the refutation witness (all by computation on closed terms). *)
 From Coq Require Import List NArith ZArith Bool.
-From SK Require Import lib.Tok lib.LGraph model.C03_Model model.C04_Model proof.C04_Glue proof.C04_Template proof.C04_Check proof.C04_Proof.
+From SK Require Import lib.Tok lib.LGraph model.C03_Model model.C04_Model proof.C04_Glue proof.C04_Template proof.C04_Any proof.C04_Check proof.C04_Proof.
 Import ListNotations.
 Local Open Scope Z_scope.
 
@@ -90,3 +90,27 @@ Example e_describes :
 Proof. vm_compute. repeat split; reflexivity. Qed.
 Example e_regen_folded : match regenerate true false eG eH with Some T => regen_folded T eG eH | None => false end = true.
 Proof. vm_compute. reflexivity. Qed.
+
+(** non-vacuity of C04_in_results_symmetric / C04_identity_glue_any_rule_symmetric: dehydrogenation of ethane written with
+    implicit hydrogens, [CH3:1][CH3:2]>>[CH2:1]=[CH2:2]; the rule is symmetric under the exchange of its two carbons *)
+Definition sG : hostg := LG [(1%N, NA 67%N false 3 0 [67%N]); (2%N, NA 67%N false 3 0 [67%N])] [(1%N, 2%N, 2)].
+Definition sH : hostg := LG [(1%N, NA 67%N false 2 0 [67%N]); (2%N, NA 67%N false 2 0 [67%N])] [(1%N, 2%N, 4)].
+Definition swap12 (n : N) : N := if N.eqb n 1 then 2%N else if N.eqb n 2 then 1%N else n.
+Example s_hyps : pair_wfb sG sH = true /\ no_explicit_H sG = true /\ centre_carries (its_construct sG sH) = true.
+Proof. vm_compute. repeat split; reflexivity. Qed.
+Example s_aut : rule_aut (template true false sG sH) swap12 swap12.
+Proof.
+  constructor.
+  - intros n I. vm_compute in I. destruct I as [<-|[<-|[]]]; vm_compute; auto.
+  - intros n a E. destruct (N.eq_dec n 1) as [->|N1]; [|destruct (N.eq_dec n 2) as [->|N2]].
+    + vm_compute in E. inversion E; subst. eexists. split; [vm_compute; reflexivity|split; reflexivity].
+    + vm_compute in E. inversion E; subst. eexists. split; [vm_compute; reflexivity|split; reflexivity].
+    + exfalso. apply label_some_in in E. vm_compute in E. destruct E as [E|[E|[]]]; congruence.
+  - intros u v x I. vm_compute in I. destruct I as [I|[]]. inversion I; subst. vm_compute. reflexivity.
+  - intros u v x I. vm_compute in I. destruct I as [I|[]]. inversion I; subst. vm_compute. reflexivity.
+Qed.
+Example s_swapped_match_regenerates :
+  aut_map (template true false sG sH) swap12 = [(1%N, 2%N); (2%N, 1%N)] /\
+  match glue (substrate false sG sH) (template true false sG sH) [(1%N, 2%N); (2%N, 1%N)] with
+  | Some T => regen_exact T sG sH | None => false end = true.
+Proof. vm_compute. split; reflexivity. Qed.
